@@ -15,7 +15,8 @@ LEVEL = "exploration"
 RULE = ("seeded random integer data matrices (families: latent-factor correlated columns with different scales and column "
         "means up to 1000 -- and, for every other data set, an additional exactly representable per-column offset of "
         "2^20..2^30 x {1,3,5,7} fed to the library only (the spec judges the small integers: PCA is shift invariant) --, "
-        "independent columns, exactly rank-deficient, repeated eigenvalues (Walsh patterns)), 2<=m<=12 "
+        "and, for every fourth data set, columns multiplied by exact powers of two 2^-40, 2^-30, 2^30 (per column in correlation "
+        "mode, one common exponent in covariance mode; outputs descaled exactly) --, independent columns, exactly rank-deficient, repeated eigenvalues (Walsh patterns)), 2<=m<=12 "
         "(thorough <=40), 1<=p<=4 (thorough <=8), both m>p (SVD path) and m<=p (covariance/EVD path); every 1<=k<=p in "
         "covariance and correlation mode; truncated SVD for every k<p and the rejected k=p; three query rows transformed "
         "stacked and separately. Non-trivial = p>=2 and the data are not already axis-aligned (the projection has an "
@@ -37,8 +38,9 @@ def nontrivial(e):
 def key_of(e, clause):
     shape = "m>p" if e["m"] > e["p"] else "m<=p"
     if e["ev"] == "Pca":
-        return "pca %s %s %s k%sp fam=%s%s" % (e["mode"], clause, shape, "=" if e["k"] == e["p"] else "<", e["fam"].replace("/offset", ""),
-                                               " offsets 2^20..2^30" if any(e.get("off", [])) else "")
+        return "pca %s %s %s k%sp fam=%s%s" % (e["mode"], clause, shape, "=" if e["k"] == e["p"] else "<", e["fam"].replace("/offset", "").replace("/colscale", ""),
+                                               " offsets 2^20..2^30" if any(e.get("off", [])) else
+                                               " columns scaled by 2^-40..2^30" if any(e.get("cexp", [])) else "")
     return "tsvd %s %s k%sp fam=%s" % (clause, shape, "=" if e["k"] == e["p"] else "<", e["fam"])
 
 
@@ -51,7 +53,8 @@ def run(ctx):
     v, bads = ctx.tlc_trace("decomp/PcaTrace.tla", "decomp/PcaTrace.cfg", f,
                             must_hit=("Pca_cov_svd_k", "Pca_cov_svd_full", "Pca_cov_evd_k", "Pca_cov_evd_full",
                                       "Pca_corr_k", "Pca_corr_full", "Tsvd", "TsvdReject",
-                                      "Offset_cov_svd", "Offset_cov_evd", "Offset_corr"))
+                                      "Offset_cov_svd", "Offset_cov_evd", "Offset_corr",
+                                      "Scaled_cov_svd", "Scaled_cov_evd", "Scaled_corr_tall", "Scaled_corr_wide"))
     hits = v.get("hits", {})
     for (l, runid, ev, clause) in bads:
         e = events[l - 1]
